@@ -35,11 +35,20 @@ Record annot := mkAnnot {
   a_idx : list (string * string)   (* pin name -> text printed between [ ] ; default "?" *)
 }.
 Record opts := mkOpts {
-  o_multi : bool; o_hashes : bool; o_urls : bool;
+  o_format : option bool;    (* the `multiline` argument: Some true / Some false, or None = left to the tool *)
+  o_hashes : bool; o_urls : bool;
   o_annot : option annot;
   o_index : list string;     (* str(repo) of the index directives written, in order *)
   o_links : list string      (* str(repo) of the --find-links directives written *)
 }.
+
+(* the layout the writer uses: `if multiline is None and <rule>: multiline = <value>`, then `if multiline:`
+   everywhere (None is falsy).  The rule is read from /repo by T1 (w_default_multi). *)
+Definition o_multi (o : opts) : bool :=
+  match o_format o with
+  | Some b => b
+  | None => w_default_multi (o_hashes o) (o_urls o)
+  end.
 
 Inductive lerr := ENotAnnotated | EValue | EUnmodelled.
 Inductive result (A : Type) := Ok (a : A) | Err (e : lerr).
@@ -390,8 +399,28 @@ Definition part_step (st : pst) (part0 : string) : pst :=
 
 Record entry := mkEntry { e_req : string; e_hash : option string; e_sources : list string; e_url : string }.
 
-(* _parse_single_line up to the call of _add_sources; None = nothing to do *)
-Definition single_entry (line : string) : result (option entry) :=
+(* s.rpartition(c) for a single character: (before the last c, found, after) *)
+Definition rpartition_char (c : ascii) (s : string) : string * bool * string :=
+  match partition_char c (rev_str s) with
+  | (a, true, b) => (rev_str b, true, rev_str a)
+  | (_, false, _) => (EmptyString, false, s)
+  end.
+
+(* one-line layout written with --urls: the URL is the last blank-separated token of the last source *)
+Definition take_url (sources : list string) : list string * string :=
+  match rev sources with
+  | [] => (sources, EmptyString)
+  | last :: before =>
+    match rpartition_char " "%char last with
+    | (head, _, tail) =>
+      if nonempty head && url_like (fst (fst (partition_char "#"%char tail)))
+      then (rev (head :: before), tail) else (sources, EmptyString)
+    end
+  end.
+
+(* _parse_single_line up to the call of _add_sources; None = nothing to do.  [acc] = the text was gathered
+   from several lines by _parse_multi_line *)
+Definition single_entry (acc : bool) (line : string) : result (option entry) :=
   match partition_char "#"%char line with
   | (rh0, _, source_part) =>
     let rh := strip rh0 in
@@ -406,7 +435,7 @@ Definition single_entry (line : string) : result (option entry) :=
       (* parse_requirement(req_part) runs before anything else: its verdict on the specifier
          part is only known for the canonical fragment *)
       if negb (spec_ok rest) then Err EUnmodelled else
-      if negb (nonempty (strip source_part)) || containsb "#" source_part || startswith source_part l_via_sp then
+      if acc || negb (nonempty (strip source_part)) || startswith (strip source_part ++ l_via_pad) l_via_word then
         let parts := split_char "#"%char (strip source_part) in
         let st := fold_left part_step parts (mkPst false false EmptyString []) in
         match s_sources st with
@@ -416,7 +445,9 @@ Definition single_entry (line : string) : result (option entry) :=
       else
         let sp := strip source_part in
         let sp' := if prefixb "[" sp then match partition_str l_idx_close sp with (_, _, r) => r end else sp in
-        Ok (Some (mkEntry req_part dist_hash (split_str l_src_sep sp') EmptyString))
+        match take_url (split_str l_src_sep sp') with
+        | (sources, url) => Ok (Some (mkEntry req_part dist_hash sources url))
+        end
     end
   end.
 
@@ -509,8 +540,8 @@ Definition add_sources (e : entry) : result pin :=
   | RL_unmod => Err EUnmodelled
   end.
 
-Definition single (line : string) : result (option pin) :=
-  match single_entry line with
+Definition single (acc : bool) (line : string) : result (option pin) :=
+  match single_entry acc line with
   | Err e => Err e
   | Ok None => Ok None
   | Ok (Some en) => match add_sources en with Err e => Err e | Ok p => Ok (Some p) end
@@ -520,7 +551,7 @@ Definition single (line : string) : result (option pin) :=
 Definition multi_step (partial line : string) : result (string * option pin) :=
   let stripped := rstrip_chars l_cont (strip line) in
   if nonempty partial && (negb (nonempty stripped) || negb (existsb (fun p => startswith stripped p) l_cont_prefixes)) then
-    match single partial with
+    match single true partial with
     | Err e => Err e
     | Ok r => Ok (stripped, r)
     end
@@ -534,7 +565,7 @@ Definition line_step (partial line : string) : result (string * option pin) :=
     let rp := strip rp0 in
     if negb (nonempty rp) then Ok (EmptyString, None)
     else if negb has_comment || endswith rp l_cont then multi_step EmptyString line
-    else match single line with Err e => Err e | Ok r => Ok (EmptyString, r) end
+    else match single false line with Err e => Err e | Ok r => Ok (EmptyString, r) end
   end.
 
 Definition push (r : option pin) (acc : list pin) : list pin :=
@@ -561,23 +592,10 @@ Fixpoint load_lines (lines : list string) (partial : string) (acc : list pin) : 
 (* every _add_sources call of the file, in file order *)
 Definition load_entries (text : string) : result (list pin) := load_lines (readlines text) EmptyString [].
 
-(* version == parse_version("0+missing") on canonical version strings: the same local part and a
-   release made of zeros only (PEP 440 equality ignores trailing zero release segments) *)
-Definition is_missing (v : string) : bool :=
-  match partition_char "+"%char v, partition_char "+"%char sol_missing with
-  | (pub, true, loc), (mpub, true, mloc) =>
-      String.eqb loc mloc && nonempty pub
-      && forall_chars (fun c => Ascii.eqb c "0"%char || Ascii.eqb c "."%char) pub
-      && forall_chars (fun c => Ascii.eqb c "0"%char || Ascii.eqb c "."%char) mpub
-  | _, _ => String.eqb v sol_missing
-  end.
-
-(* _remove_nodes: projects whose version is the placeholder are dropped *)
-Definition load (text : string) : result view :=
-  match load_entries text with
-  | Err e => Err e
-  | Ok ps => Ok (filter (fun p => negb (is_missing (p_version p))) ps)
-  end.
+(* _remove_nodes drops the requirers that never got a pin of their own (their stand-in metadata does not
+   originate from this repository); every _add_sources call is for a pin, so the loaded view is the list of
+   those calls *)
+Definition load (text : string) : result view := load_entries text.
 
 (* requirer -> project edges of a view as the loaded graph holds them: path requirers
    (and the empty name) produce no edge.  (requirer key, project, extras, spec, marker extra) *)
